@@ -194,6 +194,8 @@ class ParserExec(HeapExec):
         return super().contains(p, item, coll, e)
 
     def ev_Subscript(s, p, e):
+        if isinstance(e.value, ast.Call):          # never evaluate a call twice (it may pop / allocate): the generic handler evaluates it
+            return super().ev_Subscript(p, e)
         base = s.ev(p, e.value)
         if isinstance(base, StrV) and isinstance(e.slice, ast.Slice) and e.slice.step is None and e.slice.upper is not None:
             lo = s.ev(p, e.slice.lower) if e.slice.lower is not None else 0
